@@ -1,10 +1,11 @@
 (* Probability lemmas: the world sum is monotone, sub-additive, bounded by 1; the probability of a
    conjunction of distinct independent seeds is the product of their probabilities; the Shannon
    expansion `wmc_dnf` of the model computes the probability of a DNF of proofs. *)
-Require Import List NArith QArith Bool Lia Lqa Psatz.
+Require Import List NArith QArith Bool Lia Lqa.
 Require Import KV.Hybrid.Lineage KV.Hybrid.Spec KV.Hybrid.Model KV.Hybrid.LineageProofs.
 Import ListNotations.
 Open Scope Q_scope.
+Global Arguments Qred : simpl never.
 
 Definition probs_ok (sl : seeds) : Prop := Forall (fun r => 0 <= sprob r /\ sprob r <= 1) sl.
 
@@ -76,9 +77,7 @@ Qed.
 Definition indep_of (s : N) (g : world -> bool) : Prop :=
   forall w1 w2, (forall x, x <> s -> memN x w1 = memN x w2) -> g w1 = g w2.
 
-(* probability of seed s in the snapshot (absent seeds are never true) *)
-Definition pq (sl : seeds) (s : N) : Q :=
-  match lookup sl s with Some (p, _) => p | None => 0 end.
+Notation pq := seed_p.
 
 Lemma ids_cons : forall r rest, ids (r :: rest) = sid r :: ids rest.
 Proof. reflexivity. Qed.
@@ -128,8 +127,7 @@ Proof.
       unfold pq. ring.
 Qed.
 
-(* product of the probabilities of a proof *)
-Definition cprod (sl : seeds) (pr : list N) : Q := fold_right (fun s acc => pq sl s * acc) 1 pr.
+Notation cprod := proof_product.
 
 Lemma holds_indep : forall pr s, ~ In s pr -> indep_of s (holds pr).
 Proof.
@@ -226,8 +224,8 @@ Qed.
 
 Lemma existsb_is_nil_dnf : forall ps w, existsb is_nil ps = true -> dnf ps w = true.
 Proof.
-  unfold dnf. induction ps as [|pr ps IH]; simpl; intros w H; [discriminate|].
-  destruct pr; simpl in *; auto.
+  unfold dnf, holds. induction ps as [|pr ps IH]; simpl; intros w H; [discriminate|].
+  destruct pr; simpl in *; auto. rewrite IH by assumption. apply orb_true_r.
 Qed.
 
 Lemma dnf_fresh_false : forall ps acc, existsb is_nil ps = false ->
@@ -257,23 +255,25 @@ Proof. destruct sl; reflexivity. Qed.
 
 Lemma wmc_dnf_correct : forall sl, NoDup (ids sl) -> forall ps acc,
   (forall pr s, In pr ps -> In s pr -> ~ In s acc) ->
+  (forall s, In s (ids sl) -> ~ In s acc) ->
   wmc_dnf sl ps == psum sl (dnf ps) acc.
 Proof.
-  induction sl as [|r rest IH]; intros Hnd ps acc Hfresh; rewrite wmc_dnf_unfold.
+  induction sl as [|r rest IH]; intros Hnd ps acc Hfresh Hacc; rewrite wmc_dnf_unfold.
   - destruct (existsb is_nil ps) eqn:Hn.
     + simpl. rewrite existsb_is_nil_dnf by assumption. reflexivity.
     + destruct ps as [|pr ps']; simpl is_nil; cbv iota.
       * reflexivity.
-      * simpl psum. rewrite dnf_fresh_false by assumption. reflexivity.
+      * cbn [psum]. rewrite (dnf_fresh_false (pr :: ps') acc Hn Hfresh). reflexivity.
   - rewrite ids_cons in Hnd. inversion Hnd as [|? ? Hnotin Hnd']; subst.
     destruct (existsb is_nil ps) eqn:Hn.
     + rewrite (psum_ext _ (dnf ps) (fun _ => true)) by (intros; apply existsb_is_nil_dnf; assumption).
       rewrite psum_true. reflexivity.
-    + destruct (is_nil ps) eqn:Hps.
-      * destruct ps; [|discriminate].
+    + destruct ps as [|pr0 ps0].
+      * simpl is_nil. cbv iota.
         rewrite (psum_ext _ (dnf []) (fun _ => false)) by reflexivity.
         rewrite psum_false. reflexivity.
-      * rewrite Qred_correct. cbn [psum].
+      * simpl is_nil. cbv iota. remember (pr0 :: ps0) as ps eqn:Eps. clear Eps pr0 ps0.
+        etransitivity; [apply Qred_correct|]. cbn [psum].
         assert (Ha : psum rest (dnf ps) (sid r :: acc) == psum rest (dnf (map (remove_seed (sid r)) ps)) acc).
         { apply (psum_rel rest _ _ (fun a1 a2 => forall x, memN x a1 = (x =? sid r)%N || memN x a2)).
           - intros a1 a2 x _ HR y. simpl. rewrite HR.
@@ -286,8 +286,17 @@ Proof.
           - intros a1 a2 x Hx [-> HR]. split; auto. simpl. rewrite HR.
             destruct (N.eqb_spec (sid r) x); [subst x; contradiction | reflexivity].
           - intros a1 a2 [-> HR]. apply dnf_filter_without. assumption.
-          - split; auto. apply memN_false_iff. intro Hin.
-            (* sid r may occur in acc only if no proof mentions it; handled below *)
-            exact (Hnotin_acc_placeholder Hin). }
-        admit.
-Abort.
+          - split; auto. apply memN_false_iff. apply Hacc. simpl. auto. }
+        rewrite Ha, Hb.
+        rewrite <- (IH Hnd' (map (remove_seed (sid r)) ps) acc).
+        rewrite <- (IH Hnd' (filter (fun p => negb (memN (sid r) p)) ps) acc).
+        reflexivity.
+        -- intros pr s Hin Hs. apply filter_In in Hin. destruct Hin as [Hin _]. eapply Hfresh; eauto.
+        -- intros s Hs. apply Hacc. simpl. auto.
+        -- intros pr s Hin Hs. apply in_map_iff in Hin. destruct Hin as (pr0 & <- & Hin0).
+           unfold remove_seed in Hs. apply filter_In in Hs. destruct Hs as [Hs _]. eapply Hfresh; eauto.
+        -- intros s Hs. apply Hacc. simpl. auto.
+Qed.
+
+Lemma wmc_dnf_Prob : forall sl, NoDup (ids sl) -> forall ps, wmc_dnf sl ps == Prob sl (dnf ps).
+Proof. intros. unfold Prob. apply wmc_dnf_correct; auto. Qed.
